@@ -420,3 +420,49 @@ Definition has_empty_segment (o : op) : bool :=
   match op_name o with Some n => existsb is_empty (levels_of n) | None => false end.
 Definition is_mutator (o : op) : bool :=
   match o with Fetch _ | FetchShare _ | FetchNode _ => false | _ => true end.
+
+(* ---------------------------------------------------------- explicit history scan ---- *)
+(* the history: every operation with the result the store gave *)
+Fixpoint hist_from (s : forest) (ops : list op) : list (op * res) :=
+  match ops with [] => [] | o :: r => (o, snd (step s o)) :: hist_from (fst (step s o)) r end.
+
+(* what one answered operation places at path p *)
+Inductive placement := Definitely (v : obj) | IfVacant (v : obj) | NoEffect.
+
+Definition on_or_above (p lv : path) : bool := (path_eqb p lv || pprefix p lv) && negb (is_empty_path p).
+
+Definition places (o : op) (r : res) (p : path) : placement :=
+  match r with
+  | RErr | RNone | ROther | RCrash => NoEffect              (* rejected, or nothing returned *)
+  | _ =>
+    match o with
+    | Add i n =>                                            (* accepted add: the share, and missing ancestors *)
+        if path_eqb p (levels_of n) then Definitely (OShare i n)
+        else if on_or_above p (levels_of n) then IfVacant (ONode (join_dots p)) else NoEffect
+    | Change i n =>                                         (* accepted change: replaces the share *)
+        if path_eqb p (levels_of n) then Definitely (OShare i n) else NoEffect
+    | Create i n =>                                         (* answered create: a new share unless one was there *)
+        if path_eqb p (levels_of n) then IfVacant (OShare i (strip_dots n))
+        else if on_or_above p (levels_of n) then IfVacant (ONode (join_dots p)) else NoEffect
+    | AddNode n | CreateNode n =>                           (* nodes wherever none was *)
+        if on_or_above p (levels_of n) then IfVacant (ONode (join_dots p)) else NoEffect
+    | _ => NoEffect                                         (* lookups place nothing *)
+    end
+  end.
+
+(* scan the history from the most recent entry backwards for the last placement at p;
+   an IfVacant entry counts only if nothing older placed anything there *)
+Fixpoint scan (newest_first : list (op * res)) (p : path) : option obj :=
+  match newest_first with
+  | [] => abs init p
+  | (o, r) :: older =>
+      match places o r p with
+      | Definitely v => Some v
+      | IfVacant v => match scan older p with None => Some v | x => x end
+      | NoEffect => scan older p
+      end
+  end.
+Definition last_placed (ops : list op) (p : path) : option obj := scan (rev (hist_from init ops)) p.
+
+Definition op_id (o : op) : option Z :=
+  match o with Add i _ | Change i _ | Create i _ => Some i | _ => None end.
